@@ -9,7 +9,8 @@ evaluation order (arguments left to right, the test of `a if c else b` before it
 
 Python subset (anything else raises Untranslatable -> that class is reported `lost`, its previous section is kept):
   statements  NAME = e | NAME += e | kwargs['k'] = e | a, b, … = [e for _ in range(N)] | self.x = e (in an inlined __init__)
-              | if / elif / else (the continuation is copied into both branches) | return e | raise … | assert e
+              | if / elif / else (the continuation is copied into both branches; an `if` whose branches only assign values to
+                the same names is ONE conditional `let` and the continuation is translated once) | return e | raise … | assert e
               | e (for its reads) | docstring | import | pass
   reads       S.load_uint(N) load_int load_bit load_bool load_bits load_bytes load_coins load_var_uint load_ref
               load_maybe_ref skip_bits preload_bit preload_bits preload_bytes (N a constant int expression or a constant local),
@@ -18,7 +19,8 @@ Python subset (anything else raises Untranslatable -> that class is reported `lo
               cls(…) / cls(S) (the latter inlines __init__), cls.deserialize
   pure        int / bool / None / str / bytes constants, names, self.x, e.to01(), e.hex(), str(e), e[:K], e + e on bit strings,
               ==  !=  in (…)  not in (…)  <=  <  >=  >  is None  is not None  not  and  or, bin(e)[-1] == '1',
-              a if c else b, {} (kwargs)
+              a if c else b, {} (kwargs),
+              D = {const: const, …} (a constant table; only `x in D`, `x not in D`, `D.get(x)`, `D[x]` after a membership test)
 """
 import ast
 import os
@@ -40,10 +42,9 @@ CLASSES = [
     ('block', 'KeyExtBlkRef'), ('block', 'KeyMaxLt'), ('block', 'Counters'), ('block', 'CreatorStats'),
     ('block', 'ValidatorInfo'), ('block', 'FutureSplitMerge'),
     ('transaction', 'AccStatusChange'), ('transaction', 'ComputeSkipReason'), ('transaction', 'TrStoragePhase'),
-    ('transaction', 'TrComputePhase'), ('transaction', 'TrActionPhase'), ('transaction', 'TrBouncePhase'),
+    ('transaction', 'TrComputePhase'), ('transaction', 'TrBouncePhase'),
     ('transaction', 'SplitMergeInfo'), ('transaction', 'IntermediateAddress'),
-    ('transaction', 'TransactionStorage'), ('transaction', 'TransactionTickTock'), ('transaction', 'TransactionMergePrepare'),
-    ('transaction', 'TransactionSplitPrepare'),
+    # TrActionPhase and the Transaction* kinds are regenerated AND proved by the second part (tlbparsers_tx.py); no copies here
     ('config', 'SigPubKey'), ('config', 'ValidatorDescr'), ('config', 'CatchainConfig'), ('config', 'ConsensusConfig'),
 ]
 
@@ -216,6 +217,14 @@ class Fn:
             raise Untranslatable('+ on values that are not bit strings')
         if isinstance(e, ast.Dict) and not e.keys:
             return V(None, 'kwargs', [])
+        if isinstance(e, ast.Dict) and all(isinstance(k, ast.Constant) for k in e.keys) \
+                and all(isinstance(v, ast.Constant) for v in e.values):
+            # a constant table: never a Lean value of its own, only looked up
+            ks = [self.expr(k, env, out) for k in e.keys]
+            vs = [self.expr(v, env, out) for v in e.values]
+            if len({ast.dump(k) for k in e.keys}) != len(e.keys):
+                raise Untranslatable('constant table with a repeated key')
+            return V(None, 'cdict', list(zip(ks, vs)))
         if isinstance(e, (ast.Compare, ast.BoolOp)) or (isinstance(e, ast.UnaryOp) and isinstance(e.op, ast.Not)):
             lines, cond = self.cond(e, env, out)
             return V(f'(Val.bool {cond})', 'bool')
@@ -288,6 +297,15 @@ class Fn:
                 and isinstance(env.get(f.value.func.value.id), S)):
             s = env[f.value.func.value.id]
             return V(f'(Rd.toCell {s.sp} {s.var})', 'cell')
+        if (m == 'get' and len(e.args) == 1 and not e.keywords and isinstance(f.value, ast.Name)
+                and isinstance(env.get(f.value.id), V) and env[f.value.id].kind == 'cdict'):
+            a = self.expr(e.args[0], env, out)
+            term = 'Val.unit'
+            kinds = set()
+            for k, v in reversed(env[f.value.id].const):
+                term = f'(if Rd.veq {a.lean} {k.lean} then {v.lean} else {term})'
+                kinds.add(v.kind)
+            return V(term, kinds.pop() if len(kinds) == 1 else 'val')
         if m == 'to01' and not e.args:
             a = self.expr(f.value, env, out)
             if a.kind != 'bits':
@@ -349,6 +367,11 @@ class Fn:
                 t = self.ctx.fresh('b')
                 out.append(f'let {t} ← Rd.lowBit {a.lean}')
                 return None, t
+            if (isinstance(op, (ast.In, ast.NotIn)) and isinstance(r, ast.Name) and isinstance(env.get(r.id), V)
+                    and env[r.id].kind == 'cdict'):
+                a = self.expr(l, env, out)
+                c = '(' + ' || '.join(f'Rd.veq {a.lean} {k.lean}' for k, _ in env[r.id].const) + ')' if env[r.id].const else 'false'
+                return None, c if isinstance(op, ast.In) else f'(!{c})'
             if isinstance(op, (ast.In, ast.NotIn)) and isinstance(r, (ast.Tuple, ast.List)):
                 a = self.expr(l, env, out)
                 alts = [self.expr(x, env, out).lean for x in r.elts]
@@ -432,6 +455,8 @@ class Fn:
                 if body_raises and not s.orelse:
                     out.append(f'if {c} then none else')
                     continue
+                if rest and self.join_if(s, c, env, out):
+                    continue
                 a = self.block(list(s.body) + rest, env, ret_slice, indent + 1)
                 b = self.block(list(s.orelse) + rest, env, ret_slice, indent + 1)
                 out.append(f'\0{pad}if {c} then do\n{a}\n{pad}else do\n{b}')
@@ -468,6 +493,120 @@ class Fn:
             raise Untranslatable(f'statement {ast.unparse(s)[:70]}')
         raise Untranslatable('method may fall off its end')
 
+    # ------------------------------------------------------------------ joined `if`
+    def simple_stmts(self, stmts):
+        """only assignments / expression statements / nested such `if`s: control always reaches the statement after the `if`"""
+        for x in stmts:
+            if isinstance(x, (ast.Assign, ast.AugAssign, ast.Pass)) or (isinstance(x, ast.Expr)):
+                continue
+            if isinstance(x, ast.If) and self.simple_stmts(x.body) and self.simple_stmts(x.orelse):
+                continue
+            return False
+        return True
+
+    def run_simple(self, stmts, env, out):
+        """execute simple statements on `env` (mutated), Lean lines to `out`"""
+        for x in stmts:
+            if isinstance(x, ast.Pass) or (isinstance(x, ast.Expr) and isinstance(x.value, ast.Constant)):
+                continue
+            if isinstance(x, ast.Expr):
+                self.expr(x.value, env, out)
+            elif isinstance(x, ast.If):
+                _, c = self.cond(x.test, env, out)
+                if not self.join_if(x, c, env, out):
+                    raise Untranslatable('nested if that cannot be joined')
+            elif isinstance(x, ast.AugAssign) and isinstance(x.op, ast.Add) and isinstance(x.target, ast.Name):
+                env[x.target.id] = self.expr(ast.BinOp(left=ast.Name(id=x.target.id, ctx=ast.Load()), op=ast.Add(), right=x.value), env, out)
+            elif isinstance(x, ast.Assign) and len(x.targets) == 1 and isinstance(x.targets[0], ast.Name):
+                self.assign(x.targets[0].id, x.value, env, out)
+            elif (isinstance(x, ast.Assign) and len(x.targets) == 1 and isinstance(x.targets[0], ast.Attribute)
+                  and is_name(x.targets[0].value, 'self') and 'self' in env):
+                t = x.targets[0]
+                v = self.expr(x.value, env, out)
+                if any(k == t.attr for k, _ in env['self']):
+                    env['self'] = [(k, v if k == t.attr else y) for k, y in env['self']]
+                else:
+                    env['self'] = env['self'] + [(t.attr, v)]
+            else:
+                raise Untranslatable('statement in a joined if')
+
+    def join_if(self, s, c, env, out):
+        """`if c: <assignments> [else: <assignments>]` followed by more statements, where both branches bind the same names
+        (values only; no new slice, no kwargs entry, no attribute that exists on one side only) -> ONE Lean line
+          let (x', y', …, slices…) ← (if c then do … pure (xa, ya, …, slices) else do … pure (xb, yb, …, slices))
+        and the statements after the `if` are translated once.  -> True (env, out updated) | False (caller copies the continuation)"""
+        if not (self.simple_stmts(s.body) and self.simple_stmts(s.orelse)):
+            return False
+        ea, eb, oa, ob = dict(env), dict(env), [], []
+        n0 = self.ctx.n
+        try:
+            self.run_simple(s.body, ea, oa)
+            self.run_simple(s.orelse, eb, ob)
+        except Untranslatable:
+            self.ctx.n = n0
+            return False
+        names = []          # (kind, name[, attr])
+        for k in list(ea) + [k for k in eb if k not in ea]:
+            a, b, o = ea.get(k), eb.get(k), env.get(k)
+            if k == 'self':
+                if [x for x, _ in a] != [x for x, _ in b]:
+                    self.ctx.n = n0
+                    return False
+                for (attr, va), (_, vb) in zip(a, b):
+                    if va.lean != vb.lean:
+                        names.append(('self', attr))
+                continue
+            if isinstance(a, S) or isinstance(b, S):
+                if a is not b:                      # a slice variable bound on one side only / differently
+                    self.ctx.n = n0
+                    return False
+                continue
+            if a is b:
+                continue
+            if not (isinstance(a, V) and isinstance(b, V)) or a.kind in ('kwargs', 'cdict') or b.kind in ('kwargs', 'cdict'):
+                if isinstance(a, V) and isinstance(b, V) and a.kind == b.kind and a.const == b.const and a.lean == b.lean:
+                    continue
+                self.ctx.n = n0
+                return False
+            if a.lean != b.lean or a.const != b.const:
+                names.append(('var', k))
+        sl = []
+        for b in env.values():
+            # only the slices a branch reads from (rebinds) are threaded through the conditional
+            if isinstance(b, S) and b.var not in sl and any(
+                    re.search(r'(let |\(|, )' + re.escape(b.var) + r'\)? (←|:=)', line) for line in oa + ob):
+                sl.append(b.var)
+
+        def val(e, item):
+            return dict(e['self'])[item[1]] if item[0] == 'self' else e[item[1]]
+        fresh = [self.ctx.fresh() for _ in names]
+        tup = ', '.join(fresh + sl)
+        if not tup:
+            return False
+        ra = ', '.join([val(ea, i).lean for i in names] + sl)
+        rb = ', '.join([val(eb, i).lean for i in names] + sl)
+
+        def blk(o, r):
+            if not o:
+                return f'pure ({r})'
+            return 'do\n' + '\n'.join('      ' + x.replace('\n', '\n    ') for x in o) + f'\n      pure ({r})'
+        out.append(f'let ({tup}) ← (if {c} then {blk(oa, ra)}\n    else {blk(ob, rb)})')
+        for t, item in zip(fresh, names):
+            va, vb = val(ea, item), val(eb, item)
+            nv = V(t, va.kind if va.kind == vb.kind else 'val')
+            if item[0] == 'self':
+                env['self'] = [(k, nv if k == item[1] else y) for k, y in env['self']]
+                if not any(k == item[1] for k, _ in env['self']):
+                    env['self'] = list(ea['self'])
+                    env['self'] = [(k, nv if k == item[1] else y) for k, y in env['self']]
+            else:
+                env[item[1]] = nv
+        # names bound identically on both sides (e.g. a constant assigned before use) keep that binding
+        for k in ea:
+            if k not in env and k in eb and isinstance(ea[k], V) and not any(i == ('var', k) for i in names):
+                env[k] = ea[k]
+        return True
+
     def stmt_assign_target(self, t, value, env, out):
         if isinstance(t, ast.Name):
             return self.assign(t.id, value, env, out)
@@ -498,7 +637,7 @@ class Fn:
         v = self.expr(value, env, out)
         if k is not None:
             v = V(v.lean, v.kind, k)
-        if v.kind not in ('kwargs',) and v.const is None and not re.fullmatch(r'\w+', v.lean or ''):
+        if v.kind not in ('kwargs', 'cdict') and v.const is None and not re.fullmatch(r'\w+', v.lean or ''):
             t = self.ctx.fresh()
             out.append(f'let {t} := {v.lean}')
             v = V(t, v.kind)
